@@ -134,6 +134,17 @@ func setDiff(a, b map[string]bool) []string {
 	return d
 }
 
+// armDirectMentions: symbols written in the statements of an arm themselves (locals not expanded).
+func armDirectMentions(f *FuncCFG, arm switchArm) map[string]bool {
+	m := map[string]bool{}
+	for _, s := range arm.Body {
+		for k := range f.DirectMentions(s) {
+			m[k] = true
+		}
+	}
+	return m
+}
+
 // armMentions: symbols mentioned by the statements of an arm.
 func armMentions(f *FuncCFG, arm switchArm) map[string]bool {
 	m := map[string]bool{}
